@@ -107,6 +107,7 @@ int main(int argc,char**argv){
     //                first knot | 5 the first one inside, the others above | 6 all equal, inside
     std::vector<long> cp=plist(kv.count("cp")?kv["cp"]:std::string("-")), kz=plist(kv.count("kz")?kv["kz"]:std::string("-"));
     for(size_t d=0;d<kl.size()&&d<kz.size();d++){
+      if(!ks[d]) continue;        // a vector the shape declares unsorted stays unsorted
       if(kz[d]==1) for(long k=0;k<kl[d];k++) kbuf[d][k]=2.0;
       if(kz[d]==2 && ks[d]){
         long o= d<od.size() ? std::min<long>(od[d],kl[d]) : 0;
